@@ -192,7 +192,9 @@ def enum_contents(seed):
             tails = (".lnk", ".d", ".fifo") if i % 3 else (" l", " d ", "\tf\t")
             ents = [fs.fsFile(nm, chksums={"md5": 0xabc + i, "size": 1}, mtime=1000 + i, data=data_source(b"x"), strict=False),
                     fs.fsSymlink(nm + tails[0], target=targets[i % len(targets)], mtime=5 + i, strict=False),
-                    fs.fsDir(nm + tails[1], strict=False), fs.fsFifo(nm + tails[2], strict=False)]
+                    fs.fsDir(nm + tails[1], strict=False), fs.fsFifo(nm + tails[2], strict=False),
+                    # a device entry; no such node exists on the file system the check runs on (a package's device node may be long gone when its record is read)
+                    fs.fsDev(nm + ".dev", major=1, minor=3, mode=0o20666, uid=0, gid=0, mtime=1)]
             p = os.path.join(d, f"CONTENTS{i}")
             open(p, "w").close()
             src = p if via == "path" else _ds.data_source("", mutable=True)
@@ -213,7 +215,7 @@ def enum_contents(seed):
                 bad = None
                 if b is None:
                     bad = f"{e.location!r} missing after read-back (got {sorted(back)!r})"
-                elif type(b).__name__ != type(e).__name__:
+                elif [k for k in ("is_reg", "is_dir", "is_sym", "is_fifo", "is_dev") if getattr(b, k)] != [k for k in ("is_reg", "is_dir", "is_sym", "is_fifo", "is_dev") if getattr(e, k)]:
                     bad = f"{e.location!r} came back as {type(b).__name__}"
                 elif e.is_reg and (b.chksums["md5"] != e.chksums["md5"] or int(b.mtime) != int(e.mtime)):
                     bad = f"{e.location!r}: md5/mtime changed"
@@ -221,7 +223,7 @@ def enum_contents(seed):
                     bad = f"{e.location!r}: target {e.target!r} came back as {b.target!r}"
                 if bad and len(fails) < 4:
                     fails.append({"model": {"location": e.location, "kind": type(e).__name__, "target": getattr(e, "target", None), "source": via}, "detail": f"[{via} source] " + bad})
-    return {"name": "C24.codec.bounded_enumeration", "bound": f"{len(names)} awkward paths (spaces incl. leading/trailing/double, '->' fragments, unicode, tabs, the 8 characters at which only str.splitlines() breaks a line) x 4 entry kinds (names ending in blanks / tabs included) through a real file and through a data source",
+    return {"name": "C24.codec.bounded_enumeration", "bound": f"{len(names)} awkward paths (spaces incl. leading/trailing/double, '->' fragments, unicode, tabs, the 8 characters at which only str.splitlines() breaks a line) x 5 entry kinds (a device entry without a live node; names ending in blanks / tabs included) through a real file and through a data source",
             "cases": cases, "failures": fails}
 
 
